@@ -14,7 +14,7 @@ def two_run(tier, cont):
     smt.STATS.__init__()
     n, k, L_ = (2, 3, 3) if tier == 'quick' else (3, 4, 4)
     c = build({'seq': '', 'pre': {'N': n, 'K': k}, 'qty_mode': 'full', 'price': 1, 'default_unwind': n + 4, 'vec_cap': n + 3,
-               'match_unwind': L_, 'pop_unwind': k + L_ + 2, 'iter_symbolic': True})
+               'match_unwind': L_, 'pop_unwind': k + L_ + 2, 'iter_symbolic': True, 'order_price_offsets': [1]})
     h, ex, L, inp = c.h, c.ex, c.L, c.inp
     pre_parts = h.level_parts(h.level_value())
     st = h.st
@@ -67,8 +67,18 @@ def two_run(tier, cont):
             tol.append(S.Implies(S.And(occ_a, occ_b), S.Not(S.Eq(ta, tb))))
             tol.append(S.Implies(S.And(occ_a, occ_b, S.Ult(ta, tb)), first_before(pre_parts['tickets'], key_a, key_b)))
     tol = S.And(tol)
+    # counterexamples and witnesses that are replayed natively must not depend on the (unknown) real hash order:
+    # they are searched among states without timestamp ties
+    noties = []
+    rs = pre_parts['resting']
+    for a_ in range(len(rs)):
+        for b_ in range(a_):
+            noties.append(S.Implies(S.And(rs[a_][0], rs[b_][0]),
+                                    S.Not(S.Eq(OrderView(L, rs[a_][2]).timestamp, OrderView(L, rs[b_][2]).timestamp))))
+    noties = S.And(noties)
     a = base_assumptions(c)
-    goals = [S.And(live, S.Not(same)), S.And(live, tol, S.Not(same)), S.And(live, S.Not(S.Eq(t1.length, S.bv(0, 64)))), S.And(live, tol, S.Ugt(t1.length, S.bv(1, 64)))]
+    goals = [S.And(live, noties, S.Not(same)), S.And(live, tol, S.Not(same)), S.And(live, noties, S.Not(S.Eq(t1.length, S.bv(0, 64)))),
+             S.And(live, tol, S.Ugt(t1.length, S.bv(1, 64)))]
     gn = ['%s: restored level produces the same makers in the same sequence with the same quantities' % cont,
           '%s: tolerant: the same, wherever timestamp order is the queue order (strictly increasing timestamps in arrival order, no re-queued order)' % cont,
           'reach: %s trades' % cont, 'reach: %s sweeps two makers inside the timestamp-ordered region' % cont]
@@ -118,7 +128,7 @@ def run(tier, seed):
     run.bounds = {'original_level': 'ARBITRARY state with <= %d resting orders, <= %d tickets (ties and non-monotone timestamps, duplicate and stale tickets included)' % ((2, 3) if tier == 'quick' else (3, 4)),
                   'restore_path': 'from_snapshot(snapshot())', 'continuations': conts, 'match_loop_unwind': 3 if tier == 'quick' else 4,
                   'map_iteration_order': 'arbitrary (symbolic permutation) when the snapshot is taken'}
-    run.assumptions = ['both runs use generators with the same namespace', 'continuation bounded to the listed operations; match loop unrolled to the stated bound',
+    run.assumptions = ['order prices range over {level price, level price + 1} (the level does not validate order prices)', 'both runs use generators with the same namespace', 'continuation bounded to the listed operations; match loop unrolled to the stated bound',
                        'std stable sort, Vec, iterators as specified (environment models)']
     for cont, (res, err) in zip(conts, parallel_map([(two_run, (tier, ct)) for ct in conts])):
         if err:
